@@ -9,7 +9,7 @@ from smartquery.custom_types import Decimal
 from smartquery.exceptions import ParserError, OpsExecutionLimitExceededError
 from smartquery.functions import _dict_key_cast, _multiply, _check_concat_size
 from smartquery.utils import safe_cast
-from smartquery.vm_state import VMState
+from smartquery.vm_state import VMState, current_state
 
 
 class Op(ABC):
@@ -248,9 +248,12 @@ class LambdaOp(Op):
         super().eval(state)
 
         def f(*args):
-            with state.names.make_scope({
+            # run under the eval() call in progress (its budget, its scopes), not the one that created the lambda
+            st = current_state.get() or state
+
+            with st.names.make_scope({
                 k.name: v for k, v in zip(self.args, args)
             }):
-                return self.expr.eval(state)
+                return self.expr.eval(st)
 
         return f
